@@ -12,6 +12,9 @@ JOBS = [
       fuc=["myth_felock_lock_body", "myth_felock_unlock_body", "myth_felock_status_body"], timeout=200),
   Job("c09.init", TU, "h_fe_init", fuc=["myth_felock_init_body", "myth_mutex_init_body", "myth_cond_init_body"], timeout=200),
 ]
+# the public API functions are one-line forwarders to the bodies under contract: checked mechanically (DESIGN §3.5b)
+from units.common_forward import forward_job
+JOBS = list(JOBS) + [forward_job("c09")]
 META = {
  "level": "proof",
  "level_text": "Contracts on the real full/empty-lock bodies over the mutex (C04) and condition-variable (C05) contracts: wait_and_lock returns only with status == s and the lock held (loop contract), mark_and_signal publishes the status under the lock, signals the matching condition, then releases.",
